@@ -30,6 +30,9 @@ def main():
             continue
         mod = importlib.import_module("contracts." + pid.lower())
         level = getattr(mod, "LEVEL", "proof")
+        technique = getattr(mod, "TECHNIQUE", "contracts (wf/view/requires/ensures) on the elaborated netlist of the real code, discharged by z3 (one-step induction)")
+        if hasattr(mod, "HISTORY_LEMMAS"):
+            technique += "; the induction from the one-cycle contracts to the history-level statement is a set of lemmas over the specification functions checked by Lean 4 (lemmas/History.lean: " + ", ".join(mod.HISTORY_LEMMAS) + ")"
         checks.append(
             {
                 "property_id": pid,
@@ -44,7 +47,7 @@ def main():
                     "design_ref": f"DESIGN.md section 6 ({pid})",
                 },
                 "level_note": getattr(mod, "LEVEL_NOTE", DEFAULT_NOTE),
-                "technique": getattr(mod, "TECHNIQUE", "contracts (wf/view/requires/ensures) on the elaborated netlist of the real code, discharged by z3 (one-step induction)"),
+                "technique": technique,
             }
         )
     manifest = {
@@ -60,6 +63,7 @@ def main():
         "engines": [
             {"name": "E-HW", "path": "engine/nir2smt.py", "kind_free_text": "Amaranth NIR netlist of the real code -> z3 transition system; contract obligations by 1-induction", "serves_properties": [c["property_id"] for c in checks if "E-HW" in c["engine"]]},
             {"name": "E-PY", "path": "engine/pysym.py", "kind_free_text": "real Python function executed on symbolic proxies, one VC per path", "serves_properties": [c["property_id"] for c in checks if "E-PY" in c["engine"]]},
+            {"name": "E-LEAN", "path": "engine/lemmas.py", "kind_free_text": "history-level lemmas over the specification functions (lemmas/History.lean), checked by Lean 4 on every run with an axiom audit", "serves_properties": [c["property_id"] for c in checks if "Lean 4" in c["technique"]]},
             {"name": "E-RT", "path": "engine/oblig.py", "kind_free_text": "run-time contracts on the real functions over exhaustively enumerated small inputs (Ctx.bounded_result; simulator stub in engine/simstub.py) — bounded stand-in, never counted as proved", "serves_properties": [c["property_id"] for c in checks if "E-RT" in c["engine"]]},
         ],
         "checks": checks,
